@@ -248,7 +248,8 @@ func tieFree(in *Input) bool {
 		return false
 	}
 	fts := finishTimes(in)
-	// two relays' calls returning at one instant probe the semaphore at one instant
+	// two relays' calls returning at one instant (kept apart everywhere, though since the repair of
+	// unblindProposal only a return at the instant of the first delivery is left to Go's scheduler)
 	seen := map[uint64]bool{}
 	for _, fs := range fts {
 		for _, f := range fs {
